@@ -2,41 +2,21 @@ package checks
 
 import (
 	"fmt"
+	"os"
 	"strings"
 
-	"github.com/gogpu/naga/glsl"
-	"github.com/gogpu/naga/hlsl"
 	"github.com/gogpu/naga/ir"
-	"github.com/gogpu/naga/msl"
 	"github.com/gogpu/naga/spirv"
 
 	"verif/internal/explore"
 	"verif/internal/glslx"
 	"verif/internal/hlslx"
-	"verif/internal/irx"
-	"verif/internal/mslx"
 	"verif/internal/nagax"
 	"verif/internal/spv"
 	"verif/internal/wgen"
-	"verif/internal/wref"
-	"verif/internal/xrt"
 )
 
 func init() { Registry["C14"] = runC14 }
-
-type c14Route struct {
-	name string
-	// run returns the output buffer, an error from naga (resolution or backend), and an execution error
-	run func(m *ir.Module, pc map[string]float64) (out []byte, nagaErr string, execErr error)
-}
-
-func c14Bufs() xrt.Buffers {
-	b := make([]byte, 12)
-	for i := range b {
-		b[i] = 0xCD
-	}
-	return xrt.Buffers{{Group: 0, Binding: 0}: b}
-}
 
 func c14Resolve(m *ir.Module, pc map[string]float64) (res *ir.Module, es string) {
 	defer func() {
@@ -55,243 +35,46 @@ func c14Resolve(m *ir.Module, pc map[string]float64) (res *ir.Module, es string)
 	return c, ""
 }
 
-func c14Routes() []c14Route {
-	key := xrt.Binding{Group: 0, Binding: 0}
-	slot := map[int]xrt.Binding{0: key}
-	mslOpts := func() msl.Options {
-		o := msl.DefaultOptions()
-		s0, sb := uint8(0), uint8(30)
-		o.PerEntryPointMap = map[string]msl.EntryPointResources{"main": {Resources: map[ir.ResourceBinding]msl.BindTarget{{Group: 0, Binding: 0}: {Buffer: &s0, Mutable: true}}, SizesBuffer: &sb}}
-		return o
-	}
-	runMSL := func(src string, info msl.TranslationInfo) ([]byte, error) {
-		p, err := mslx.Parse(src)
-		if err != nil {
-			return nil, err
-		}
-		b := c14Bufs()
-		err = p.Exec(b, mslx.Opts{Opts: xrt.Opts{EntryPoint: info.EntryPointNames["main"]}, BufferSlots: slot, SizesOrder: []xrt.Binding{key}, WorkgroupSize: [3]uint32{1, 1, 1}})
-		return b[key], err
-	}
-	runGLSL := func(src string) ([]byte, error) {
-		p, err := glslx.Parse(src)
-		if err != nil {
-			return nil, err
-		}
-		b := c14Bufs()
-		err = p.Exec(b, glslx.Opts{})
-		return b[key], err
-	}
-	return []c14Route{
-		{"ProcessOverrides+ir", func(m *ir.Module, pc map[string]float64) ([]byte, string, error) {
-			res, es := c14Resolve(m, pc)
-			if es != "" {
-				return nil, es, nil
-			}
-			b := c14Bufs()
-			err := irx.Exec(res, b, xrt.Opts{})
-			return b[key], "", err
-		}},
-		{"ProcessOverrides+spirv", func(m *ir.Module, pc map[string]float64) ([]byte, string, error) {
-			res, es := c14Resolve(m, pc)
-			if es != "" {
-				return nil, es, nil
-			}
-			bin, err, pn := nagax.SPIRV(res, spirv.DefaultOptions())
-			if err != nil || pn != nil {
-				return nil, errStr(err, pn), nil
-			}
-			mod, err := spv.Parse(bin)
-			if err != nil {
-				return nil, "", err
-			}
-			b := c14Bufs()
-			err = spv.Exec(mod, b, xrt.Opts{EntryPoint: "main"})
-			return b[key], "", err
-		}},
-		{"ProcessOverrides+hlsl", func(m *ir.Module, pc map[string]float64) ([]byte, string, error) {
-			res, es := c14Resolve(m, pc)
-			if es != "" {
-				return nil, es, nil
-			}
-			src, _, err, pn := nagax.HLSL(res, *hlsl.DefaultOptions())
-			if err != nil || pn != nil {
-				return nil, errStr(err, pn), nil
-			}
-			p, err := hlslx.Parse(src)
-			if err != nil {
-				return nil, "", err
-			}
-			b := c14Bufs()
-			err = p.Exec(b, hlslx.Opts{})
-			return b[key], "", err
-		}},
-		{"ProcessOverrides+msl", func(m *ir.Module, pc map[string]float64) ([]byte, string, error) {
-			res, es := c14Resolve(m, pc)
-			if es != "" {
-				return nil, es, nil
-			}
-			src, info, err, pn := nagax.MSL(res, mslOpts())
-			if err != nil || pn != nil {
-				return nil, errStr(err, pn), nil
-			}
-			out, e := runMSL(src, info)
-			return out, "", e
-		}},
-		{"ProcessOverrides+glsl", func(m *ir.Module, pc map[string]float64) ([]byte, string, error) {
-			res, es := c14Resolve(m, pc)
-			if es != "" {
-				return nil, es, nil
-			}
-			o := glsl.DefaultOptions()
-			o.LangVersion = glsl.Version450
-			o.EntryPoint = "main"
-			src, _, err, pn := nagax.GLSL(res, o)
-			if err != nil || pn != nil {
-				return nil, errStr(err, pn), nil
-			}
-			out, e := runGLSL(src)
-			return out, "", e
-		}},
-		{"msl.PipelineConstants", func(m *ir.Module, pc map[string]float64) ([]byte, string, error) {
-			o := mslOpts()
-			o.PipelineConstants = map[string]float64{}
-			for k, v := range pc {
-				o.PipelineConstants[k] = v
-			}
-			src, info, err, pn := nagax.MSL(m, o)
-			if err != nil || pn != nil {
-				return nil, errStr(err, pn), nil
-			}
-			out, e := runMSL(src, info)
-			return out, "", e
-		}},
-		{"glsl.PipelineConstants", func(m *ir.Module, pc map[string]float64) ([]byte, string, error) {
-			o := glsl.DefaultOptions()
-			o.LangVersion = glsl.Version450
-			o.EntryPoint = "main"
-			o.PipelineConstants = ir.PipelineConstants{}
-			for k, v := range pc {
-				o.PipelineConstants[k] = v
-			}
-			src, _, err, pn := nagax.GLSL(m, o)
-			if err != nil || pn != nil {
-				return nil, errStr(err, pn), nil
-			}
-			out, e := runGLSL(src)
-			return out, "", e
-		}},
-	}
-}
-
-func c14Program(r *explore.Run, p *wgen.F6oProg) {
-	src := p.OverrideSource()
-	m, stage, err, pn := nagax.Front(src)
-	sc := strings.Join(strings.Split(p.Sig, "/")[1:3], "/")
-	if pn != nil {
-		r.Skip("naga panic (C10)")
-		return
-	}
-	if err != nil {
-		r.Violate(explore.Violation{Key: "C14|front-end|" + sc + "|" + errClass(err.Error()), Detail: "valid override program rejected at " + stage + ": " + err.Error(), Replay: map[string]any{"sig": p.Sig, "src": src}})
-		return
-	}
-	h0 := irx.Hash(m)
-	type vm struct {
-		label string
-		pc    map[string]float64
-		v     *float64
-	}
-	maps := []vm{{"absent", map[string]float64{}, nil}}
-	for _, v := range p.Values() {
-		v := v
-		k := "X"
-		if p.HasID {
-			k = "7"
-		}
-		maps = append(maps, vm{fmt.Sprintf("%s=%v", k, v), map[string]float64{k: v}, &v})
-	}
-	for _, mp := range maps {
-		// left shift in an override expression must not lose bits (pipeline-creation error otherwise): skip such values
-		if p.DerivOp == "<<" && mp.v != nil {
-			x := uint32(int64(*mp.v))
-			if p.XType.S == wgen.I32 {
-				if int32(x<<1)>>1 != int32(x) {
-					continue
-				}
-			} else if (x<<1)>>1 != x {
-				continue
-			}
-		}
-		if p.DerivOp == "<<" && mp.v == nil && p.Default != nil && p.XType.S == wgen.U32 && (*p.Default<<1)>>1 != *p.Default {
-			continue
-		}
-		ref, ok := p.Substituted(mp.v)
-		var want []byte
-		if ok {
-			b := ref.Bufs.Clone()
-			if e := wref.Exec(ref.Mod, "", b, ref.Groups, wref.Config{}); e != nil {
-				r.Skip("reference cannot evaluate the substituted program")
-				continue
-			}
-			want = b[xrt.Binding{Group: 0, Binding: 0}]
-		}
-		for _, rt := range c14Routes() {
-			r.Count("evaluations", 1)
-			out, nerr, xerr := rt.run(m, mp.pc)
-			rp := map[string]any{"sig": p.Sig, "src": src, "constants": mp.label, "route": rt.name}
-			key := func(class string) string { return "C14|" + rt.name + "|" + sc + "|" + class }
-			if !ok {
-				// neither a value nor a default: resolution must report an error
-				if nerr == "" && xerr == nil {
-					r.Violate(explore.Violation{Key: key("missing-value-accepted"), Detail: fmt.Sprintf("%s: override X has no default and no value was supplied, yet %s produced output", p.Sig, rt.name), Replay: rp})
-				}
-				continue
-			}
-			if nerr != "" {
-				r.Violate(explore.Violation{Key: key("naga-error:" + nerr), Detail: fmt.Sprintf("%s [%s] via %s: naga reports %s for a resolvable module", p.Sig, mp.label, rt.name, nerr), Replay: rp})
-				continue
-			}
-			if xerr != nil {
-				cls, skip := failClass(xerr)
-				if skip != "" {
-					r.Skip(skip)
-					continue
-				}
-				r.Violate(explore.Violation{Key: key("exec:" + cls), Detail: fmt.Sprintf("%s [%s] via %s: %v", p.Sig, mp.label, rt.name, xerr), Replay: rp})
-				continue
-			}
-			if string(out) != string(want) {
-				which := "absent"
-				if mp.v != nil {
-					which = "supplied"
-				}
-				r.Violate(explore.Violation{Key: key("wrong-value(" + which + ")"), Detail: fmt.Sprintf("%s [%s] via %s: result %x, the substituted WGSL program gives %x", p.Sig, mp.label, rt.name, out, want), Replay: rp})
-				continue
-			}
-			r.DistinctBytes(out)
-		}
-		if h := irx.Hash(m); h != h0 {
-			r.Violate(explore.Violation{Key: "C14|caller-module-modified|" + sc, Detail: p.Sig + ": override resolution altered the caller's module", Replay: map[string]any{"sig": p.Sig, "src": src}})
-			h0 = h
-		}
-	}
-}
-
-// c14Sizes: overrides used as @workgroup_size arguments and as workgroup array sizes, including
-// sizes derived from another override.
+// c14Sizes: overrides used as @workgroup_size arguments (every dimension) and as workgroup array sizes,
+// including sizes derived from another override and sizes given by an override expression. Observed in
+// the resolved module's array type, in the SPIR-V LocalSize, the HLSL
+// numthreads attribute and the GLSL local_size layout (ProcessOverrides route and glsl PipelineConstants).
 func c14Sizes(r *explore.Run) {
-	type prog struct{ name, decl, wgExpr, arrExpr string }
+	type prog struct {
+		name, decl string
+		wg         [3]string
+		arr        string
+		wantWG     func(x float64) [3]float64
+		wantArr    func(x float64) float64
+		key        string
+		noDefault  bool
+	}
+	id := func(x float64) float64 { return x }
+	x1 := func(x float64) [3]float64 { return [3]float64{x, 1, 1} }
 	progs := []prog{
-		{"direct", "override X: u32 = 4u;\n", "X", "X"},
-		{"direct-id", "@id(7) override X: u32 = 4u;\n", "X", "X"},
-		{"nodefault", "override X: u32;\n", "X", "X"},
-		{"derived", "override X: u32 = 4u;\noverride Y: u32 = X * 2u;\n", "Y", "Y"},
-		{"expression", "override X: u32 = 4u;\n", "X + 1u", "X * 2u"},
-		{"i32", "override X: i32 = 4;\n", "X", "X"},
+		{name: "direct", decl: "override X: u32 = 4u;\n", wg: [3]string{"X"}, arr: "X", wantWG: x1, wantArr: id},
+		{name: "direct-id", decl: "@id(7) override X: u32 = 4u;\n", wg: [3]string{"X"}, arr: "X", wantWG: x1, wantArr: id, key: "7"},
+		{name: "nodefault", decl: "override X: u32;\n", wg: [3]string{"X"}, arr: "X", wantWG: x1, wantArr: id, noDefault: true},
+		{name: "derived", decl: "override X: u32 = 4u;\noverride Y: u32 = X * 2u;\n", wg: [3]string{"Y"}, arr: "Y", wantWG: func(x float64) [3]float64 { return [3]float64{2 * x, 1, 1} }, wantArr: func(x float64) float64 { return 2 * x }},
+		{name: "expression", decl: "override X: u32 = 4u;\n", wg: [3]string{"X + 1u"}, arr: "X * 2u", wantWG: func(x float64) [3]float64 { return [3]float64{x + 1, 1, 1} }, wantArr: func(x float64) float64 { return 2 * x }},
+		{name: "i32", decl: "override X: i32 = 4;\n", wg: [3]string{"X"}, arr: "X", wantWG: x1, wantArr: id},
+		{name: "dim-y", decl: "override X: u32 = 4;\n", wg: [3]string{"2", "X"}, arr: "3", wantWG: func(x float64) [3]float64 { return [3]float64{2, x, 1} }, wantArr: func(float64) float64 { return 3 }},
+		{name: "dim-z", decl: "override X: u32 = 4;\n", wg: [3]string{"1", "2", "X"}, arr: "3", wantWG: func(x float64) [3]float64 { return [3]float64{1, 2, x} }, wantArr: func(float64) float64 { return 3 }},
+		{name: "dims-xyz", decl: "override X: u32 = 4;\noverride Y: u32 = X + 1;\n", wg: [3]string{"X", "Y", "2"}, arr: "3", wantWG: func(x float64) [3]float64 { return [3]float64{x, x + 1, 2} }, wantArr: func(float64) float64 { return 3 }},
+		{name: "derived-reverse", decl: "override Y: u32 = X * 2;\noverride X: u32 = 4;\n", wg: [3]string{"Y"}, arr: "3", wantWG: func(x float64) [3]float64 { return [3]float64{2 * x, 1, 1} }, wantArr: func(float64) float64 { return 3 }},
+		{name: "second-entry-point", decl: "override X: u32 = 4;\n@compute @workgroup_size(X, 2) fn aux() { w[1] = 2u; }\n", wg: [3]string{"X"}, arr: "3", wantWG: x1, wantArr: func(float64) float64 { return 3 }},
 	}
 	for _, p := range progs {
-		src := p.decl + "var<workgroup> w: array<u32, " + p.arrExpr + ">;\n@group(0) @binding(0) var<storage, read_write> o: array<u32>;\n@compute @workgroup_size(" + p.wgExpr + ") fn main() { w[0] = 1u; o[0] = w[0]; }\n"
+		wg := p.wg[0]
+		for _, d := range p.wg[1:] {
+			if d != "" {
+				wg += ", " + d
+			}
+		}
+		src := p.decl + "var<workgroup> w: array<u32, " + p.arr + ">;\n@group(0) @binding(0) var<storage, read_write> o: array<u32>;\n@compute @workgroup_size(" + wg + ") fn main() { w[0] = 1u; o[0] = w[0]; }\n"
+		if p.name == "second-entry-point" { // aux is declared after main
+			src = "override X: u32 = 4;\nvar<workgroup> w: array<u32, 3>;\n@group(0) @binding(0) var<storage, read_write> o: array<u32>;\n@compute @workgroup_size(X) fn main() { w[0] = 1u; o[0] = w[0]; }\n@compute @workgroup_size(X, 2) fn aux() { w[1] = 2u; }\n"
+		}
 		m, _, err, pn := nagax.Front(src)
 		if pn != nil {
 			continue
@@ -300,35 +83,24 @@ func c14Sizes(r *explore.Run) {
 			r.Violate(explore.Violation{Key: "C14|sizes|" + p.name + "|front-end:" + errClass(err.Error()), Detail: "valid override program rejected: " + err.Error(), Replay: map[string]any{"src": src}})
 			continue
 		}
-		vals := []float64{1, 7, 64}
 		type vm struct {
 			label string
 			pc    map[string]float64
 			x     float64
 			ok    bool
 		}
-		var maps []vm
-		if p.name != "nodefault" {
-			maps = append(maps, vm{"absent", map[string]float64{}, 4, true})
-		} else {
-			maps = append(maps, vm{"absent", map[string]float64{}, 0, false})
-		}
+		maps := []vm{{"absent", map[string]float64{}, 4, !p.noDefault}}
 		key := "X"
-		if p.name == "direct-id" {
-			key = "7"
+		if p.key != "" {
+			key = p.key
 		}
-		for _, v := range vals {
+		for _, v := range []float64{1, 7, 64} {
 			maps = append(maps, vm{fmt.Sprintf("%s=%v", key, v), map[string]float64{key: v}, v, true})
 		}
 		for _, mp := range maps {
 			r.Count("evaluations", 1)
-			wantWG, wantArr := mp.x, mp.x
-			switch p.name {
-			case "derived":
-				wantWG, wantArr = mp.x*2, mp.x*2
-			case "expression":
-				wantWG, wantArr = mp.x+1, mp.x*2
-			}
+			wantWG, wantArr := p.wantWG(mp.x), p.wantArr(mp.x)
+			m, _, _, _ = nagax.Front(src)
 			res, es := c14Resolve(m, mp.pc)
 			rp := map[string]any{"src": src, "constants": mp.label}
 			if !mp.ok {
@@ -357,30 +129,155 @@ func c14Sizes(r *explore.Run) {
 					}
 				}
 			}
+			check := func(route string, got [3]uint32) {
+				r.Count("evaluations", 1)
+				for d := 0; d < 3; d++ {
+					if float64(got[d]) != wantWG[d] {
+						r.Violate(explore.Violation{Key: "C14|sizes|" + p.name + "|workgroup-size:" + route, Detail: fmt.Sprintf("[%s] %s: workgroup size of main is %v, want %v", mp.label, route, got, wantWG), Replay: rp})
+						return
+					}
+				}
+			}
 			bin, err, pn := nagax.SPIRV(res, spirv.DefaultOptions())
 			if err != nil || pn != nil {
 				r.Violate(explore.Violation{Key: "C14|sizes|" + p.name + "|spirv-error:" + errStr(err, pn), Detail: "SPIR-V backend rejects the resolved module: " + errStr(err, pn), Replay: rp})
-				continue
+			} else if mod, e := spv.Parse(bin); e == nil {
+				if ls, e2 := mod.LocalSize("main"); e2 == nil {
+					check("spirv", ls)
+				}
+				if p.name == "second-entry-point" {
+					if ls, e2 := mod.LocalSize("aux"); e2 == nil {
+						r.Count("evaluations", 1)
+						if float64(ls[0]) != mp.x || ls[1] != 2 {
+							r.Violate(explore.Violation{Key: "C14|sizes|" + p.name + "|workgroup-size:spirv(aux)", Detail: fmt.Sprintf("[%s] workgroup size of the second entry point is %v, want [%v 2 1]", mp.label, ls, mp.x), Replay: rp})
+						}
+					}
+				}
 			}
-			if mod, e := spv.Parse(bin); e == nil {
-				if ls, e2 := mod.LocalSize("main"); e2 == nil && float64(ls[0]) != wantWG {
-					r.Violate(explore.Violation{Key: "C14|sizes|" + p.name + "|workgroup-size", Detail: fmt.Sprintf("[%s] LocalSize is %d, want %v", mp.label, ls[0], wantWG), Replay: rp})
+			if text, _, err, pn := nagax.HLSL(res, nagax.HLSLConfigs(0)[0].Opts); err == nil && pn == nil {
+				if hp, e := hlslx.Parse(text); e == nil {
+					for _, ep := range hp.EntryPoints() {
+						if ep.Name == "main" {
+							check("hlsl", ep.NumThreads)
+						}
+						if ep.Name == "aux" {
+							r.Count("evaluations", 1)
+							if w := ep.NumThreads; float64(w[0]) != mp.x || w[1] != 2 {
+								r.Violate(explore.Violation{Key: "C14|sizes|" + p.name + "|workgroup-size:hlsl(aux)", Detail: fmt.Sprintf("[%s] numthreads of the second entry point is %v, want [%v 2 1]", mp.label, w, mp.x), Replay: rp})
+							}
+						}
+					}
+				}
+			}
+			gopts := nagax.GLSLConfigs(0)[0].Opts
+			gopts.EntryPoint = "main"
+			if text, _, err, pn := nagax.GLSL(res, gopts); err == nil && pn == nil {
+				if gp, e := glslx.Parse(text); e == nil {
+					check("glsl", gp.LocalSize())
+				}
+			}
+			// glsl.Options.PipelineConstants on a fresh module
+			if len(mp.pc) > 0 {
+				fm, _, _, _ := nagax.Front(src)
+				gopts.PipelineConstants = ir.PipelineConstants(pcClone(mp.pc))
+				text, _, err, pn := nagax.GLSL(fm, gopts)
+				if err != nil || pn != nil {
+					r.Violate(explore.Violation{Key: "C14|sizes|" + p.name + "|glsl.PipelineConstants-error:" + errStr(err, pn), Detail: fmt.Sprintf("[%s] glsl.Options.PipelineConstants fails: %s", mp.label, errStr(err, pn)), Replay: rp})
+				} else if gp, e := glslx.Parse(text); e == nil {
+					check("glsl.PipelineConstants", gp.LocalSize())
 				}
 			}
 		}
 	}
 }
 
+// c14Parts: the sub-spaces of the check (VERIF_C14_PARTS=a,b restricts a run to some of them: authoring aid).
+func c14Part(name string) bool {
+	sel := os.Getenv("VERIF_C14_PARTS")
+	if sel == "" {
+		return true
+	}
+	for _, p := range strings.Split(sel, ",") {
+		if p == name {
+			return true
+		}
+	}
+	return false
+}
+
 func runC14() int {
 	r := explore.New("C14")
-	c14Sizes(r)
-	progs := wgen.F6oPrograms()
-	r.Count("programs", int64(len(progs)))
-	r.ParallelFor(len(progs), func(i int) { c14Program(r, progs[i]) })
-	p := progs[len(progs)/2]
-	r.Sample(map[string]any{"program": p.Sig, "source": p.OverrideSource(), "constants": "absent, and each of the type's value alphabet by name or by @id"})
+	th := r.Thorough()
+	if c14Part("sizes") {
+		c14Sizes(r)
+	}
+	routes := c14xRoutes()
+	var all []*wgen.OvProg
+	add := func(part string, ps []*wgen.OvProg) {
+		if !c14Part(part) {
+			return
+		}
+		r.Extra("programs_"+part, len(ps))
+		maps := 0
+		for _, p := range ps {
+			maps += len(p.Maps)
+		}
+		r.Extra("value_maps_"+part, maps)
+		if len(ps) > 0 {
+			p := ps[len(ps)/2]
+			var labels []string
+			for _, m := range p.Maps {
+				labels = append(labels, m.Label)
+			}
+			r.Sample(map[string]any{"program": p.Sig, "source": p.Source(), "constants": strings.Join(labels, " ; ")})
+		}
+		all = append(all, ps...)
+	}
+	add("spell", wgen.F6oSpell())
+	add("comp", wgen.F6oComp())
+	add("shape", wgen.F6oShapes(th))
+	add("ops", wgen.F6oOps(th))
+	add("chain", wgen.F6oChains(th))
+	if th {
+		add("cf", wgen.F6oCf(2, 3, []string{"entry", "callee", "calleeval"}, []string{"direct", "folded", "let"}, 5))
+		add("inj", wgen.F6oInj([]string{"buf", "let", "var", "fn", "asg"}, true))
+	} else {
+		add("cf", wgen.F6oCf(2, 0, []string{"entry", "callee"}, []string{"direct", "folded"}, 3))
+		add("inj", wgen.F6oInj([]string{"var", "fn"}, false))
+	}
+	r.Count("programs", int64(len(all)))
+	if os.Getenv("VERIF_PRINT_KEYS") != "" {
+		seen := map[string]bool{}
+		for _, p := range all {
+			if k := p.Part + " " + p.Class; !seen[k] {
+				seen[k] = true
+				fmt.Println("CLASS", k)
+			}
+		}
+	}
+	r.ParallelFor(len(all), func(i int) { c14xProgram(r, routes, all[i]) })
+	if c14Part("hist") {
+		hp := c14HistoryPrograms(th)
+		r.Extra("programs_hist", len(hp))
+		depth := 2
+		if th {
+			depth = 3
+		}
+		r.Extra("history_depth", depth)
+		r.ParallelFor(len(hp), func(i int) { c14History(r, hp[i], depth) })
+	}
 	printKeys(r)
-	return r.Finish("F6o override programs: a primary override X of each type {bool, i32, u32, f32}, with and without @id, with no default and with two defaults, and a derived override Y = X op literal for every arithmetic, bit, shift, comparison, unary, conversion and select operator of the type, used in expressions and (by variant) in a private global initialiser or inside nested control flow x every value map {absent, each value of the type's alphabet by name or by @id} x 7 routes {ProcessOverrides then IR interpreter / SPIR-V / HLSL / MSL / GLSL, msl.Options.PipelineConstants, glsl.Options.PipelineConstants}. Oracle: the same program with X replaced by a const of the supplied value converted to X's type (or the default) under the reference evaluator; no value and no default must be an error; the caller's module hash is unchanged. distinct = distinct result buffers",
+	return r.Finish("(1) sizes: overrides as @workgroup_size arguments and workgroup array sizes (direct, by @id, without default, derived, in an expression). "+
+		"(2) spell: spellings {bare, suffixed, conversion call, parenthesised} of defaults and of literal operands in initialisers. "+
+		"(2b) comp: overrides inside vector / splat / array / struct constructors in module-scope initialisers and function bodies with component access, swizzle and dynamic indexing, vector select, and initialisers that combine overrides with named module constants, per numeric type. "+
+		"(3) shape: every dependency shape over <= 3 overrides {single, pair, independent, chain, fan-in, fan-out, diamond edge} x type assignment (4 uniform, 2 mixed with conversions at the edges) x operator x which roots have defaults x @id placement {none, all, alternate} x declaration order {dependency, reverse} x every subset of supplied overrides. "+
+		"(4) ops: every scalar operator/builtin/conversion/bitcast of the F1 tables with the override in each single operand position (literal elsewhere, two literal variants) and in all positions x site {function body, derived override initialiser, module-scope var initialiser, helper function body followed by further statements} x {absent, every value of the operator's boundary alphabet}. "+
+		"(5) chain: outer(inner(X)) for every type-compatible pair of core forms (binary operator with a literal on either side, unary, conversion, bitcast) in a function body and (binary x binary) in a derived initialiser. "+
+		"(6) cf: every F2 control-flow tree up to the node budget x position {entry, callee[, value-returning callee]} with the steering literals (loop bounds, condition operands, counters, marker multipliers, switch selector term) replaced by overrides x rewriting mode {direct, folded override expression[, let]} x value maps that change trip counts and branches. "+
+		"(7) inj: a foldable override use injected at the start of each function of every F1 operator-table program (operand sources var, fn) and F4 access program. "+
+		"(8) hist: breadth-first search over operation sequences {resolve(A), resolve(B), msl/glsl PipelineConstants(A/B), plain spirv/hlsl/msl/glsl} of depth <= 2 on ONE lowered module, states de-duplicated by module hash. "+
+		"All of (2)-(7) x 7 routes {ProcessOverrides then IR interpreter / SPIR-V / HLSL / MSL / GLSL, msl.Options.PipelineConstants, glsl.Options.PipelineConstants}, each on a freshly lowered module. Oracle: the same program with each override replaced by a const of the supplied value converted to its type (or its initialiser) under the reference evaluator; no value and no default must be an error; the caller's module is unchanged after every operation (changed part classified); history: each operation's result equals its result on a fresh module. distinct = distinct result buffers",
 		[]string{"supplied values are representable in the override's type (unrepresentable values are a pipeline-creation error in WebGPU and are not asserted)",
-			"left shifts that lose bits are pipeline-creation errors and are skipped"})
+			"override-expressions whose pipeline-creation-time evaluation overflows, divides by zero or shifts lossily are asserted as 'error or the wrapped value'; cases where WGSL leaves the value to the implementation (inexact conversions, inf/nan/subnormal intermediates) are skipped and counted",
+			"for carrier programs (cf, inj) a mismatch that the same backend also shows on the substituted program is the backend's (C01/C03-C05) and is skipped and counted"})
 }
